@@ -87,6 +87,11 @@ def generic_rules(ctx) -> None:
     if files:
         n = superflow.check(ctx, f"{ctx.chk.prop}.override-forwarding", files)
         ctx.chk.extra["override_forwarding_sites"] = n
+        from .engines import latebind
+        lb = latebind.check(ctx, f"{ctx.chk.prop}.late-binding", files)
+        ctx.chk.extra["overridden_class_constants"] = lb
+        if lb:
+            ctx.chk.ok(f"{ctx.chk.prop}.late-binding", "anchor modules", f"{lb} class constants overridden by subclasses; the base classes read none of them through a hard-coded class name")
         from .engines import guardconj
         g = guardconj.check(ctx, f"{ctx.chk.prop}.guard-conjunction", files)
         ctx.chk.extra["raising_guards_scanned"] = g
